@@ -5,6 +5,7 @@ import (
 	"go/constant"
 	"go/token"
 	"go/types"
+	"os"
 	"sort"
 	"strings"
 
@@ -814,6 +815,20 @@ func ruleC10Assert(c *Ctx) {
 							if g, ok := u.X.(*ssa.Global); ok {
 								if t := poolType(g); t != nil && types.Identical(t, ta.AssertedType) {
 									c.OK("C10.ASSERT", construct, pos, "sync.Pool element: New returns and every Put stores the asserted type (only-writer)")
+									continue
+								}
+							}
+						}
+						// a pool kept in a field of a typed wrapper (instancePool[T]): the field only ever holds the
+						// wrapper's type argument
+						if f, base := fieldOfAddr(call.Call.Args[0]); f != nil && !f.Exported() {
+							if idx := typeArgIndex(base.Type(), ta.AssertedType); idx >= 0 {
+								okAll, n := poolFieldHoldsTypeArg(c, f, idx)
+								if debugDecide {
+									fmt.Fprintf(os.Stderr, "poolfield %s idx=%d ok=%v n=%d\n", f.Name(), idx, okAll, n)
+								}
+								if okAll && n > 0 {
+									c.OK("C10.ASSERT", construct, pos, fmt.Sprintf("sync.Pool element of a typed wrapper: the %d Put/New site(s) of field %s all store the wrapper's type argument (only-writer)", n, f.Name()))
 									continue
 								}
 							}
@@ -2307,4 +2322,88 @@ func sameHandedIn(a, b ssa.Value) bool {
 		return isPrm
 	}
 	return false
+}
+
+// typeArgIndex: t is (a pointer to) an instance of a generic named type and want is its i-th type argument.
+func typeArgIndex(t, want types.Type) int {
+	nm, _ := types.Unalias(derefType(t)).(*types.Named)
+	if nm == nil || nm.TypeArgs() == nil {
+		return -1
+	}
+	for i := 0; i < nm.TypeArgs().Len(); i++ {
+		if types.Identical(nm.TypeArgs().At(i), want) {
+			return i
+		}
+	}
+	return -1
+}
+
+// poolFieldHoldsTypeArg: every value put into the sync.Pool kept in field f of a generic wrapper — by Put, or
+// by the New function installed where the wrapper is built — has the wrapper's idx-th type argument as its type
+// (the type parameter itself inside the wrapper's own methods).  n counts the sites.
+func poolFieldHoldsTypeArg(c *Ctx, f *types.Var, idx int) (bool, int) {
+	p := c.P
+	ok, n := true, 0
+	isArg := func(base ssa.Value, x types.Type) bool {
+		nm, _ := types.Unalias(derefType(base.Type())).(*types.Named)
+		return nm != nil && nm.TypeArgs() != nil && idx < nm.TypeArgs().Len() && types.Identical(nm.TypeArgs().At(idx), x)
+	}
+	boxed := func(v ssa.Value) types.Type {
+		if mi, isMI := v.(*ssa.MakeInterface); isMI {
+			return mi.X.Type()
+		}
+		// inside a generic body a value of type-parameter type is converted, not boxed
+		if ct, isCT := v.(*ssa.ChangeType); isCT {
+			if _, isTP := types.Unalias(ct.X.Type()).(*types.TypeParam); isTP {
+				return ct.X.Type()
+			}
+		}
+		return nil
+	}
+	for _, fn := range p.SrcFuncs(f.Pkg().Name()) {
+		for _, b := range fn.Blocks {
+			for _, in := range b.Instrs {
+				switch x := in.(type) {
+				case ssa.CallInstruction:
+					cal, _ := calleeOf(x.Common())
+					if cal == nil || cal.Name() != "Put" || cal.Pkg() == nil || cal.Pkg().Path() != "sync" || len(x.Common().Args) != 2 {
+						continue
+					}
+					if ff, base := fieldOfAddr(x.Common().Args[0]); sameVar(ff, f) {
+						n++
+						if t := boxed(x.Common().Args[1]); t == nil || !isArg(base, t) {
+							ok = false
+						}
+					}
+				case *ssa.Store:
+					nf, poolAddr := fieldOfAddr(x.Addr)
+					if nf == nil || nf.Name() != "New" {
+						continue
+					}
+					ff, base := fieldOfAddr(poolAddr)
+					if !sameVar(ff, f) {
+						continue
+					}
+					n++
+					var newFn *ssa.Function
+					switch v := x.Val.(type) {
+					case *ssa.MakeClosure:
+						newFn, _ = v.Fn.(*ssa.Function)
+					case *ssa.Function:
+						newFn = v
+					}
+					if newFn == nil || newFn.Blocks == nil {
+						ok = false
+						continue
+					}
+					for _, r := range returnsOf(newFn) {
+						if t := boxed(r.Results[0]); t == nil || !isArg(base, t) {
+							ok = false
+						}
+					}
+				}
+			}
+		}
+	}
+	return ok, n
 }
